@@ -89,6 +89,8 @@ try:
              "our_checks": dict(old.get("our_checks", {}), **res["checks"])}
         if a.no_tests and old.get("confirmed"):
             m["confirmed"] = old["confirmed"]
+        if old.get("note"):
+            m["note"] = old["note"]
         # keep the history of verdicts: a change first missed and caught after a check was strengthened is recorded as such
         for c, v in res["checks"].items():
             prev = old.get("our_checks", {}).get(c)
